@@ -161,8 +161,31 @@ fn witness(rules: &[(String, String)], input: &str, vocab_kind: &str, o: &Outcom
     })
 }
 
-fn report_disagreement(rep: &mut Report, ctx: &mut Ctx, rules: &[(String, String)], input: &str, vocab_kind: &str) {
+fn report_disagreement(rep: &mut Report, ctx: &mut Ctx, rules: &[(String, String)], input: &str, vocab_kind: &str, got: &[String]) {
     rep.count("disagreements_raw");
+    // Known mechanism, decided on the unshrunk case: the output is exactly
+    // what "merge all occurrences of the best pair per sweep" gives and the
+    // table is not in an order a trainer can emit. Folded into the pinned
+    // witness's signature without shrinking.
+    let is_pinned = rules == canonical_rules().as_slice() && input == CANONICAL_INPUT && vocab_kind != "default";
+    if ctx.canonical_fired && !is_pinned && !properly_ordered(rules) {
+        let syms: Vec<String> = input.as_bytes().iter().map(|x| byte_chars()[*x as usize].to_string()).collect();
+        if sweep_bpe(&syms, rules) == got {
+            rep.count("disagreement_class:sweep_vs_single|order=improper");
+            rep.count("folded_into_pinned_signature");
+            if ctx.folded_examples.len() < 12 && rules.len() <= 3 {
+                let (expected, _) = ref_bpe(&syms, rules);
+                ctx.folded_examples.push(json!({"rules": rules_sig(rules), "input": input, "expected": expected, "got": got}));
+            }
+            return;
+        }
+    }
+    let done = *rep.counters.get("disagreements_shrunk").unwrap_or(&0);
+    if done >= 80 || rep.n_violations() >= rep.max_violations {
+        rep.count("disagreements_not_shrunk");
+        return;
+    }
+    rep.count("disagreements_shrunk");
     let (srules, sinput) = shrink(rules, input, vocab_kind);
     let Ok(b) = build(&srules, vocab_kind) else { return };
     let Ok(o) = run_one(&b, &srules, &sinput) else { return };
@@ -222,7 +245,7 @@ fn check_table(rep: &mut Report, ctx: &mut Ctx, rules: &[(String, String)], inpu
                     rep.max("max_merges_in_one_input", o.applied as u64);
                 }
                 if o.disagreement.is_some() {
-                    report_disagreement(rep, ctx, rules, input, vocab_kind);
+                    report_disagreement(rep, ctx, rules, input, vocab_kind, &o.got);
                 } else if o.applied >= 3 && rep.wants_sample() {
                     rep.sample(|| json!({"rules": rules_sig(rules), "input": input, "pieces": o.got, "ids": o.got_ids, "merges_applied": o.applied, "vocab": vocab_kind}));
                 }
@@ -318,7 +341,7 @@ fn replay(rep: &mut Report, w: &Json) {
                 rep.nontrivial(&(&rules, input.as_str()));
             }
             if o.disagreement.is_some() {
-                report_disagreement(rep, &mut ctx, &rules, &input, &vocab_kind);
+                report_disagreement(rep, &mut ctx, &rules, &input, &vocab_kind, &o.got);
             }
         }
         Err(e) => rep.inconclusive = Some(format!("replayed case gave no result: {}", e)),
@@ -348,7 +371,7 @@ pub fn run(args: &Args) {
                 rep.nontrivial(&(&rules, CANONICAL_INPUT, "default_ids"));
                 if o.disagreement.is_some() {
                     ctx.canonical_fired = true;
-                    report_disagreement(&mut rep, &mut ctx, &rules, CANONICAL_INPUT, "default_ids");
+                    report_disagreement(&mut rep, &mut ctx, &rules, CANONICAL_INPUT, "default_ids", &o.got);
                 }
                 rep.note("pinned_case", json!({"rules": rules_sig(&rules), "input": CANONICAL_INPUT, "expected": o.expected, "got": o.got, "disagrees": o.disagreement.is_some()}));
             }
@@ -373,7 +396,7 @@ pub fn run(args: &Args) {
     rep.exhaustive = args.shards == 1;
 
     // ---- random larger alphabets
-    let n_rand = args.budget(4_000, 400_000);
+    let n_rand = args.budget(40_000, 1_000_000);
     let mut rng = Rng::derive(args.seed, 0xC28_0000 + args.shard as u64);
     for _ in 0..n_rand {
         let (rules, alpha, kind) = random_table(&mut rng);
